@@ -224,20 +224,30 @@ theorem afterScan_sign (c : List Nat) (e : Nat) (neg : Bool) (start : Nat) (fo :
         · simp only [Option.some.injEq] at h; subst h; simp at hk
         · exact finishReal_sign _ _ _ _ _ _ _ _ _ _ r h hk
 
+theorem thenScan_sign (neg : Bool) (r0 : Option (Res ⊕ Scan)) (k : Scan → Option Res) (r : Res)
+    (hinl : ∀ r', r0 = some (.inl r') → r'.kind = .notANumber)
+    (hk' : ∀ s r, k s = some r → r.kind = .real → r.bits / 2 ^ 63 = b2n neg)
+    (h : thenScan r0 k = some r) (hk : r.kind = .real) : r.bits / 2 ^ 63 = b2n neg := by
+  unfold thenScan at h
+  split at h
+  · cases h
+  · rename_i r' 
+    simp only [Option.some.injEq] at h; subst h
+    rw [hinl _ rfl] at hk; cases hk
+  · exact hk' _ _ h hk
+
 theorem afterSign_sign (c : List Nat) (e : Nat) (neg : Bool) (off : Nat) (r : Res)
     (h : afterSign c e neg off = some r) (hk : r.kind = .real) : r.bits / 2 ^ 63 = b2n neg := by
+  have scan : ∀ W num o dg hd dO ir start fo, thenScan (iter1 c e W num o dg hd dO ir) (afterScan c e neg start fo) = some r →
+      r.bits / 2 ^ 63 = b2n neg := fun W num o dg hd dO ir start fo h =>
+    thenScan_sign neg _ _ r (fun r' hr' => iter1_inl _ _ _ _ _ _ _ _ _ r' hr')
+      (fun s r h hk => afterScan_sign _ _ _ _ _ s r h hk) h hk
   unfold afterSign at h
   split at h
   · split at h
     · cases h
     · split at h
-      · -- first unit 1..9
-        split at h
-        · cases h
-        · rename_i r' hr'
-          simp only [Option.some.injEq] at h; subst h
-          rw [iter1_inl _ _ _ _ _ _ _ _ _ _ hr'] at hk; cases hk
-        · exact afterScan_sign _ _ _ _ _ _ r h hk
+      · exact scan _ _ _ _ _ _ _ _ _ h
       · split at h
         · -- first unit 0 or .
           simp only at h
@@ -262,18 +272,8 @@ theorem afterSign_sign (c : List Nat) (e : Nat) (neg : Bool) (off : Nat) (r : Re
               · cases h
               · split at h
                 · simp only [Option.some.injEq] at h; subst h; simp at hk
-                · split at h
-                  · cases h
-                  · rename_i r' hr'
-                    simp only [Option.some.injEq] at h; subst h
-                    rw [iter1_inl _ _ _ _ _ _ _ _ _ _ hr'] at hk; cases hk
-                  · exact afterScan_sign _ _ _ _ _ _ r h hk
-            · split at h
-              · cases h
-              · rename_i r' hr'
-                simp only [Option.some.injEq] at h; subst h
-                rw [iter1_inl _ _ _ _ _ _ _ _ _ _ hr'] at hk; cases hk
-              · exact afterScan_sign _ _ _ _ _ _ r h hk
+                · exact scan _ _ _ _ _ _ _ _ _ h
+            · exact scan _ _ _ _ _ _ _ _ _ h
         · simp only [Option.some.injEq] at h; subst h; simp at hk
   · simp only [Option.some.injEq] at h; subst h; simp at hk
 
